@@ -16,6 +16,7 @@ import (
 	"os"
 	"os/exec"
 	"path/filepath"
+	"strconv"
 	"strings"
 	"syscall"
 
@@ -50,7 +51,8 @@ func Child() *Remote {
 	r := &Remote{out: bufio.NewWriter(os.Stdout), in: bufio.NewReader(os.Stdin)}
 	vos.Reset()
 	vos.Hook = func(op *vos.Op) vos.Verdict {
-		r.Send("P %s %s", op.Kind, filepath.Base(op.Path))
+		// a name that holds this process's id differs from run to run
+		r.Send("P %s %s", op.Kind, strings.ReplaceAll(filepath.Base(op.Path), strconv.Itoa(os.Getpid()), "<pid>"))
 		return vos.Verdict{}
 	}
 	vos.FlockHook = func(fd int, how int) error {
